@@ -306,7 +306,25 @@ func runC11(c *Ctx) {
 						continue
 					}
 					if derivesFrom(st.Val, func(z ssa.Value) bool { return loadedFromField(z, "clientLimit", "lastRefill") }) {
-						continue // advances the old time base
+						// advances the old time base - by the time the added tokens stand for, computed without an integer
+						// division on the way: above 60 per minute `tokens*60/rate` seconds is 0, the tokens are added and the
+						// time base stays, so the same elapsed time is credited again at every request
+						var intDiv ssa.Instruction
+						derivesFrom(st.Val, func(z ssa.Value) bool {
+							bo, ok := z.(*ssa.BinOp)
+							if !ok || bo.Op != token.QUO {
+								return false
+							}
+							if bt, ok := bo.Type().Underlying().(*types.Basic); ok && bt.Info()&types.IsInteger != 0 {
+								if _, isK := constInt(bo.Y); !isK {
+									intDiv = bo
+								}
+							}
+							return false
+						})
+						n++
+						c.ob("C11-R8", fnKey(adm)+"#time-base-advance-is-not-truncated-"+itoa(n), st.Pos(), intDiv == nil, "the time base is advanced by an amount that goes through an integer division by a run-time quantity (the rate): for rates above the unit of the division the advance truncates to zero, tokens are added while the time base stays, and every later request is credited the same elapsed time again - a client that waits one token interval is then admitted without bound")
+						continue
 					}
 					q := &pathQuery{fn: rf, cutEdge: fullEdge, target: func(x ssa.Instruction) bool { return x == ins }}
 					hit, path := q.after(add)
